@@ -73,6 +73,12 @@ def assume(run):
     k = run.k; out = []
     if k.meta.get('plain'):
         w = TYPES[k.ty][1]
+        if k.op in ('div', 'mod') and TYPES[k.ty][3] == 'int':
+            # the operations' own preconditions (as in C01 / C13): non-zero divisors, no MIN / -1
+            from ..symex import mask
+            for a_, b_ in zip(run.desc[0]['lanes'], run.desc[1]['lanes']):
+                out.append(b_ != 0)
+                if TYPES[k.ty][2]: out.append(z3.Not(z3.And(a_ == (1 << (w - 1)), b_ == mask(w))))
         for d in run.desc:
             if d['kind'] == 's': out.append(z3.ULT(d['sym'], w))
             if d['kind'] == 'z' and k.op == 'from_mask': out.append(z3.ULT(d['sym'], 1 << lanes(k.ty, k.arch)) if lanes(k.ty, k.arch) < 64 else z3.BoolVal(True))
